@@ -92,6 +92,13 @@ CHECKS["C19"] = ("property-based testing (Hypothesis): deep before/after snapsho
             "with forward references, unions and a decorated function, probe outcome compared with a fresh re-declaration.",
             "Trusted: vf/checks/c19.py:snapshot; vf/oracle.py:equal/plain; aliasing between result and input is by design not a failure.", "3/C19")
 
+CHECKS["C17"] = ("differential property-based testing (Hypothesis): generated systems of mutually referencing classes/functions rendered to source with forward references (per-reference spelling, definition order, future annotations, local scope, first-use order) against the same system rendered with direct references (unrolled)",
+            "hypothesis",
+            "Exploration: programs of 1-3 data classes, an optional constrained type and an optional decorated function over 8 reference wrappers (plain, Optional, List, Dict, Union, "
+            "Tuple, nested twice) x 4 spellings x definition order x future-annotations x local scope, exec-ed in a fresh module; inputs valid/invalid at every level, used in a "
+            "drawn first-use order and compared call by call with the direct-reference rendering; plus the same class name declared in two modules.",
+            "Trusted: the renderer of the direct-reference program (vf/checks/c17.py:render_ref); vf/oracle.py:plain; (exception class, item) as error kind.", "3/C17")
+
 NOT_YET = "check not built yet in this round (planned, see DESIGN.md section 3)"
 
 
